@@ -52,7 +52,7 @@ def start_request(sc, x, kind):
         sc.trigger(x, kind)
 
 
-def run_lost(ck, mons, seed, x, kind, lost, tname, conf=None, retry=None, pre_lost=0):
+def run_lost(ck, mons, seed, x, kind, lost, tname, conf=None, retry=None, pre_lost=0, dup_answer=False):
     rng = ck.rng('lost', seed, x, kind, tuple(lost), tname)
     hs = kind not in ('initial', 'auth')
     sc = walk.Scenario(seed, mons, conf, handshake=hs)
@@ -77,8 +77,18 @@ def run_lost(ck, mons, seed, x, kind, lost, tname, conf=None, retry=None, pre_lo
         sim.case['pre_lost'] = pre_lost
         # let the first request through, and the error notification back: the retry request is what we lose now
         sc.deliver(0)
+        if dup_answer and sim.net:
+            # ... and that notification arrives TWICE (the network duplicated it, or the responder answered two copies of the request): the second copy finds the
+            # retried request already outstanding. It changes nothing: the retried request is retransmitted and given up like any other
+            sc.dup(0)
+            sim.case['answer_delivered_twice'] = True
         sc.deliver(0)
-        if not sim.net:
+        if dup_answer:
+            late = [j for j, d in enumerate(sim.net) if d.dst == me]
+            if late:
+                sc.deliver(late[0])
+                ck.count('retry.late_second_copy_of_the_answer_delivered')
+        if not [d for d in sim.net if d.src == me]:
             ck.count('lost.retry_not_emitted')
             return
     k = 0
@@ -284,6 +294,17 @@ def run_partition(ck, mons, seed, name, k, dpd, dt, noise=False):
     had = {e.name: bool(e.kernel.sad) for e in sim.eps.values()}
     bound = dpd + monitors.retransmission_budget() + 3 * dt
     t_gone = {}
+    if noise == 'send-errors':
+        # the partition shows as a LOCAL transmission error (route gone, interface down, firewall rule: ENETUNREACH, EHOSTUNREACH, EPERM, ENOBUFS ...) on every
+        # datagram towards the peer, instead of silent loss: attempts that fail are attempts, the budget and the clean-up bound are the same
+        err = (101, 113, 1, 105, 'no-errno', 'timeout')[(k + len(name)) % 6]
+        sim.case['sendto_error'] = err
+        for e in sim.eps.values():
+            for o in sim.eps.values():
+                if o is not e:
+                    for ad in o.addrs:
+                        e.sendto_persistent[str(ad)] = err
+        ck.count('partition.runs_in_which_every_transmission_fails_locally')
     junk = bytes(8) + b'\x11' * 8 + bytes([46, 0x20, 37, 0x08]) + (7).to_bytes(4, 'big') + (28).to_bytes(4, 'big')
     while sim.clock.t < T + bound + 2 * dt:
         if noise == 'forged-with-the-spis':
@@ -542,6 +563,8 @@ def run(ck):
                     for pre in (1, 2):
                         run_lost(ck, mk(), base + n + 7000 * pre, x, kind, lost, tname, conf=conf, retry=retry, pre_lost=pre)
                         ck.count('retry.runs_after_the_original_had_been_retransmitted')
+                if len(lost) != 2:
+                    run_lost(ck, mk(), base + n + 31000, x, kind, lost, tname, conf=conf, retry=retry, dup_answer=True)
     # (3) partition after every micro-step
     for name in HISTORIES:
         dry = walk.Scenario(base + 1, [], dict(dpd=600, lifetime=3600), handshake=name != 'initial+child')
@@ -563,6 +586,8 @@ def run(ck):
                             S.r_ikesa.os = real_os
                         continue
                     run_partition(ck, mk(), base + 7 * n, name, k, dpd, dt, noise=(False, True, 'forged-with-the-spis')[(k + len(name)) % 3])
+                    if (k + len(name)) % 2:
+                        run_partition(ck, mk(), base + 7 * n + 3, name, k, dpd, dt, noise='send-errors')
     # (4) idle runs
     for dpd, lifetime, dt in ((5, 20, 1.0), (60, 20, 1.0), (5, 100, 2.0), (60, 100, 2.5), (7, 20, 0.5)):
         n += 1
@@ -611,12 +636,14 @@ def verdict(ck):
     c = ck.counters
     ck.floor('partition runs in which both ends chose equal SPI values', c['partition.runs_with_equal_spi_values_at_both_ends'], 20)
     ck.floor('forged cleartext datagrams carrying the SPIs of an IKE_SA whose peer is dead', c['partition.forged_cleartext_datagrams_with_the_spis'], 300)
+    ck.floor('partitions that show as a local transmission error on every datagram', c['partition.runs_in_which_every_transmission_fails_locally'], 20)
     ck.floor('lost-subset runs', c['lost.runs'], 300)
     ck.floor('runs with every transmission lost', c['lost.all_lost'], 50)
     ck.floor('retransmissions observed', sum(v for k, v in c.items() if k.startswith('tm.retransmission.')), 1000)
     ck.floor('give-ups after the budget', c['tm.gave_up'], 50)
     ck.floor('request-outstanding states seen giving up', len(ck.sets['tm.gave_up_states']), 8)
     ck.floor('retry runs in which the original request had already been retransmitted', c['retry.runs_after_the_original_had_been_retransmitted'], 40)
+    ck.floor('retry runs in which a second copy of the COOKIE / INVALID_KE_PAYLOAD answer arrived after the retried request was out', c['retry.late_second_copy_of_the_answer_delivered'], 30)
     ck.floor('retry runs', sum(v for k, v in c.items() if k.startswith('retry.runs.')), 40)
     ck.floor('peer-restart runs in which the old IKE_SA was gone in time', c['restart.old_ike_sa_gone_in_time'], 5)
     ck.floor('answered exchanges on one long-lived IKE_SA', c['many.exchanges'], 400)
